@@ -117,3 +117,111 @@ def result_shaping(model):
         out[key].add(form)
         out['nodes'].setdefault((key, form), p.end_node)
     return out
+
+
+# ---------------------------------------------------------------- the document text reaches the grammar unchanged
+
+FRAMING_OK = ('decode',)
+REWRITERS = ('normalize', 'replace', 'lower', 'upper', 'translate', 'expandtabs', 'casefold', 'strip', 'lstrip', 'rstrip',
+             'sub', 'subn', 'encode', 'format', 'title', 'swapcase', 'join', 'splitlines')
+
+
+def text_flow(ctx, rule, what='parse(dump(g))'):
+    """Every statement of parser.parse that rebinds the document text is either the charset decode or one of the
+    two framing steps on line ends (strip trailing line ends with TRAILING_NL_RE, append one newline).  Any
+    other rewrite of the whole text (Unicode normalisation, replace, case, strip of blanks) also rewrites the
+    strings inside the document."""
+    m = ctx.model
+    try:
+        fn = m.func('parser', 'parse')
+    except AnalysisError as e:
+        ctx.error(rule, str(e))
+        return
+    tparam = fn.args.args[0].arg
+    n = 0
+    text_vars = {tparam}
+    stmts = sorted([st for st in ast.walk(fn) if isinstance(st, (ast.Assign, ast.AugAssign))], key=lambda x: (x.lineno, x.col_offset))
+    for st in stmts:
+        if isinstance(st, ast.Assign):
+            if len(st.targets) != 1 or not isinstance(st.targets[0], ast.Name):
+                continue
+            tgt, val = st.targets[0].id, st.value
+        else:
+            if not isinstance(st.target, ast.Name):
+                continue
+            tgt, val = st.target.id, st.value
+        uses = {x.id for x in ast.walk(val) if isinstance(x, ast.Name) and x.id in text_vars}
+        if isinstance(st, ast.AugAssign) and tgt in text_vars:
+            uses = uses | {tgt}
+        if not uses:
+            if tgt in text_vars and tgt != tparam:
+                text_vars.discard(tgt)
+            continue
+        n += 1
+        where = '%s:%d' % (FR, st.lineno)
+        t = norm(st)
+        tv = sorted(uses)[0]
+        if isinstance(st, ast.AugAssign):
+            v = m.fold('parser', val)
+            if isinstance(st.op, ast.Add) and v in ('\n', '\r\n'):
+                ctx.ob(rule, 'framing: one line end is appended to the text', True, where)
+            else:
+                ctx.error(rule, '%s `%s`: not a tabled framing step; cannot decide' % (where, t[:70]))
+            continue
+        if isinstance(val, ast.Name) and val.id in text_vars:
+            text_vars.add(tgt)
+            continue
+        if isinstance(val, ast.Call) and isinstance(val.func, ast.Attribute):
+            attr = val.func.attr
+            recv = norm(val.func.value)
+            if attr == 'decode' and recv in text_vars:
+                ctx.ob(rule, 'bytes input is decoded once (`%s`)' % t[:60], True, where)
+                text_vars.add(tgt)
+                continue
+            if attr == 'sub' and recv == 'TRAILING_NL_RE' and len(val.args) == 2 and norm(val.args[1]) in text_vars \
+                    and m.fold('parser', val.args[0]) in ('', '\n'):
+                ctx.ob(rule, 'framing: trailing line ends are normalised with TRAILING_NL_RE', True, where)
+                text_vars.add(tgt)
+                continue
+            if norm(val.func) == 'json.loads':
+                ctx.ob(rule, 'JSON text is handed to json.loads as it is', True, where)
+                continue
+            if attr == 'split' and recv == 'GRID_SEP':
+                ctx.ob(rule, 'framing: the text is split into grids at GRID_SEP', True, where)
+                continue
+        if isinstance(val, (ast.ListComp, ast.GeneratorExp)) and len(val.generators) == 1 \
+                and isinstance(val.generators[0].iter, ast.Call) and norm(val.generators[0].iter.func) == 'GRID_SEP.split' \
+                and norm(val.elt) == norm(val.generators[0].target):
+            ctx.ob(rule, 'framing: the text is split into grids at GRID_SEP (empty pieces dropped)', True, where)
+            continue
+        if isinstance(val, ast.BinOp) and isinstance(val.op, ast.Add) and norm(val.left) in text_vars \
+                and m.fold('parser', val.right) in ('\n', '\r\n'):
+            ctx.ob(rule, 'framing: one line end is appended to the text', True, where)
+            text_vars.add(tgt)
+            continue
+        rew = [x.func.attr for x in ast.walk(val) if isinstance(x, ast.Call) and isinstance(x.func, ast.Attribute)
+               and x.func.attr in REWRITERS]
+        callees = {norm(x.func) for x in ast.walk(val) if isinstance(x, ast.Call)}
+        parsers = {'parse_grid', 'parse_zinc_grid', 'parse_json_grid'}
+        for d in ast.walk(fn):
+            if isinstance(d, ast.Assign) and len(d.targets) == 1 and isinstance(d.targets[0], ast.Name) \
+                    and norm(d.value).startswith(('functools.partial(parse_grid', 'partial(parse_grid')):
+                parsers.add(d.targets[0].id)
+        arg_names = {x.id for c in ast.walk(val) if isinstance(c, ast.Call) for x in c.args if isinstance(x, ast.Name)}
+        if not rew and callees and (callees | arg_names) & parsers and callees <= (parsers | {'list', 'map', 'tuple'}):
+            n -= 1
+            continue        # the pieces are handed to the grid parser
+        if rew:
+            ctx.violation(rule, '%s::parse' % FR, t[:160],
+                          '%s for a grid holding the string with the character U+1D15E (or U+2F800, or any text the '
+                          'rewrite changes): the whole document is passed through `%s` before it is parsed, so the '
+                          'characters inside strings, URIs and units change with it' % (what, norm(val)[:60]),
+                          'parse() rewrites the document text (%s) before handing it to the grammar' % ', '.join(rew),
+                          file=FR, line=st.lineno, engine='E7')
+            text_vars.add(tgt)
+            continue
+        if isinstance(val, ast.List) and len(val.elts) == 1 and norm(val.elts[0]) in text_vars:
+            continue        # [grid_data]: one pre-decoded object wrapped
+        ctx.error(rule, '%s `%s`: the document text is used in a way that is not tabled; cannot decide' % (where, t[:70]))
+    ctx.count('rebindings of the document text in parse()', n)
+    ctx.floor('rebindings of the document text in parse()', n, 3)
